@@ -64,22 +64,23 @@ type sStream struct {
 	blobURI   string
 	plURL     *url.URL
 	// playlist evolution
-	mode      string // vod | event | live | scripted
-	window    int
-	baseMSN   int
-	cursor    int // scripted: index of the last listed segment
-	steps     []int
-	polls     int
-	endAfter  int // ENDLIST once this many segments are listed (-1: never)
-	plType    string
-	hasPDT    bool
-	served    []*servedPL // every playlist state served, in order
-	rendition *mvRendition
-	llHints   bool
-	canSkip   bool
-	targetDur int
-	version   int
-	indep     bool
+	mode       string // vod | event | live | scripted
+	window     int
+	baseMSN    int
+	cursor     int // scripted: index of the last listed segment
+	steps      []int
+	polls      int
+	endAfter   int // ENDLIST once this many segments are listed (-1: never)
+	plType     string
+	hasPDT     bool
+	served     []*servedPL // every playlist state served, in order
+	rendition  *mvRendition
+	llHints    bool
+	canSkip    bool
+	targetDur  int
+	emptyTrafs bool // C13: fragments carry a traf without samples for tracks that have no unit in them
+	version    int
+	indep      bool
 }
 
 type servedPL struct {
@@ -132,6 +133,10 @@ func renderFMP4Segment(st *sStream, sg *sSeg, seqBase *uint32) []byte {
 			lo := sg.first[ti] + n*f/nf
 			hi := sg.first[ti] + n*(f+1)/nf
 			if hi <= lo {
+				if st.emptyTrafs && len(t.units) > 0 {
+					// a traf whose trun has no samples
+					part.Tracks = append(part.Tracks, &fmp4.PartTrack{ID: t.id, BaseTime: uint64(t.units[min(lo, len(t.units)-1)].dts)})
+				}
 				continue
 			}
 			pt := &fmp4.PartTrack{ID: t.id, BaseTime: uint64(t.units[lo].dts)}
